@@ -332,6 +332,8 @@ def derived_stream(c, tmp, n, pairs, metas):
             xyzpy.save_ds(ds, os.path.join(d, "first"), engine=engine)
             loaded = xyzpy.load_ds(os.path.join(d, "first"), engine=engine)
             extra = [x for x in range(10, 13)][:rng.randint(1, 2)]
+            if rng.random() < 0.4:
+                extra = [x + 0.5 for x in extra]          # the (integer) coordinate itself becomes float
             other = xr.Dataset({"w": (("a",), np.array([float(x) for x in extra]))}, coords={"a": extra})
             if how == "reindex":
                 derived = loaded.reindex(a=a + extra)
@@ -339,11 +341,11 @@ def derived_stream(c, tmp, n, pairs, metas):
                 derived = xr.merge([loaded, other])
             else:
                 derived = loaded.combine_first(other)
-            want = {k: derived[k].values.tolist() for k in derived.data_vars}
+            want = {k: derived[k].values.tolist() for k in list(derived.data_vars) + list(derived.coords)}
             xyzpy.save_ds(derived, os.path.join(d, "second"), engine=engine)
             back = xyzpy.load_ds(os.path.join(d, "second"), engine=engine)
             KIND = {"i": "KInt", "u": "KUInt", "f": "KFloat", "c": "KComplex", "b": "KBool", "U": "KStr"}
-            for k in derived.data_vars:
+            for k in list(derived.data_vars) + list(derived.coords):
                 if not same_values(derived[k].values, back[k].values):
                     bad = f"{k}: {want[k]} came back as {back[k].values.tolist()}"
                 # the kind the variable was written with, against the regenerated rule of save_ds
